@@ -279,3 +279,167 @@ func maxInt(a, b int) int {
 	}
 	return b
 }
+
+func lbvcReadFwd(l *commitLog, from int64, max int) (offs []int64, vals []string) {
+	r, err := l.NewReader(from, true)
+	if err != nil {
+		return nil, nil
+	}
+	hb := make([]byte, 28)
+	newest := l.NewestOffset()
+	for i := 0; i < max && from <= newest; i++ {
+		ctx, cancel := context.WithTimeout(context.Background(), 150*time.Millisecond)
+		m, off, _, _, err := r.ReadMessage(ctx, hb)
+		cancel()
+		if err != nil {
+			break
+		}
+		offs = append(offs, off)
+		vals = append(vals, string(m.Key())+"="+string(m.Value()))
+		if off >= newest {
+			break
+		}
+	}
+	return
+}
+
+func lbvcReadRev(l *commitLog, from int64) (offs []int64) {
+	r, err := l.NewReverseReader(from, true)
+	if err != nil {
+		return nil
+	}
+	hb := make([]byte, 28)
+	for i := 0; i < 1000; i++ {
+		_, off, _, _, err := r.ReadMessage(context.Background(), hb)
+		if err != nil {
+			break
+		}
+		offs = append(offs, off)
+	}
+	return
+}
+
+// Compaction: survivors = no key, latest committed for the key, at/above the HW, or in the newest segment; each survivor
+// unchanged at its offset; forward and reverse readers from any offset return exactly the survivors.
+func TestLbvcScenarioCompaction(t *testing.T) {
+	var problems []string
+	type kv struct{ k, v string }
+	mk := func(keys string) []kv {
+		var out []kv
+		for i, f := range strings.Fields(keys) {
+			out = append(out, kv{f, fmt.Sprintf("v%d", i)})
+		}
+		return out
+	}
+	layouts := [][]kv{
+		mk("foo bar foo foo bar baz baz qux foo baz"),
+		mk("a a a a a a a a"),
+		mk("a b c d e f g h"),
+		mk("- a - a - b b -"),
+		mk("a b a b a b a b a b a b"),
+		mk("x y z x y z q q q x"),
+	}
+	for li, lay := range layouts {
+		for _, segBytes := range []int64{60, 100, 150, 400} {
+			for _, hwBack := range []int{0, 1, 3} {
+				l, cleanup := lbvcLog(t, Options{MaxSegmentBytes: segBytes, Compact: true})
+				var all []kv
+				for _, e := range lay {
+					var key []byte
+					if e.k != "-" {
+						key = []byte(e.k)
+					}
+					if _, err := l.Append([]*Message{{Key: key, Value: []byte(e.v), Timestamp: 1}}); err != nil {
+						problems = append(problems, "append failed: "+err.Error())
+					}
+					all = append(all, e)
+				}
+				hw := int64(len(all) - 1 - hwBack)
+				l.SetHighWatermark(hw)
+				segs := l.Segments()
+				newestBase := segs[len(segs)-1].BaseOffset
+				nseg := len(segs)
+				// oracle
+				latest := map[string]int64{}
+				for i, e := range all {
+					if e.k != "-" && int64(i) <= hw {
+						latest[e.k] = int64(i)
+					}
+				}
+				var want []int64
+				wantVal := map[int64]string{}
+				for i, e := range all {
+					o := int64(i)
+					if e.k == "-" || o >= hw || o >= newestBase || latest[e.k] == o {
+						want = append(want, o)
+						k := e.k
+						if k == "-" {
+							k = ""
+						}
+						wantVal[o] = k + "=" + e.v
+					}
+				}
+				if err := l.Clean(); err != nil {
+					problems = append(problems, "clean failed: "+err.Error())
+					cleanup()
+					continue
+				}
+				desc := fmt.Sprintf("layout %d, segment bytes %d (%d segments), hw %d", li, segBytes, nseg, hw)
+				got, vals := lbvcReadFwd(l, 0, len(all)+2)
+				missing := false
+				for _, w := range want {
+					found := false
+					for gi, g := range got {
+						if g == w {
+							found = true
+							if vals[gi] != wantVal[w] {
+								problems = append(problems, desc+fmt.Sprintf(": offset %d reads %q after compaction, was %q", w, vals[gi], wantVal[w]))
+							}
+						}
+					}
+					if !found {
+						missing = true
+						problems = append(problems, desc+fmt.Sprintf(": offset %d must survive compaction but is gone (read back %v)", w, got))
+					}
+				}
+				for i := 1; i < len(got); i++ {
+					if got[i] <= got[i-1] {
+						problems = append(problems, desc+fmt.Sprintf(": forward read out of order %v", got))
+						break
+					}
+				}
+				if !missing {
+					// readers from every offset see exactly the messages present (got), forwards and backwards
+					for start := int64(0); start < int64(len(all)); start++ {
+						var expF, expR []int64
+						for _, g := range got {
+							if g >= start {
+								expF = append(expF, g)
+							}
+						}
+						for i := len(got) - 1; i >= 0; i-- {
+							if got[i] <= start {
+								expR = append(expR, got[i])
+							}
+						}
+						f, _ := lbvcReadFwd(l, start, len(all)+2)
+						if fmt.Sprint(f) != fmt.Sprint(expF) {
+							problems = append(problems, desc+fmt.Sprintf(": forward reader from %d returned %v, present are %v", start, f, expF))
+						}
+						r := lbvcReadRev(l, start)
+						if fmt.Sprint(r) != fmt.Sprint(expR) {
+							problems = append(problems, desc+fmt.Sprintf(": reverse reader from %d returned %v, present at or below it are %v", start, r, expR))
+						}
+					}
+				}
+				cleanup()
+			}
+		}
+	}
+	if len(problems) > 0 {
+		if len(problems) > 6 {
+			problems = append(problems[:6], fmt.Sprintf("... and %d more", len(problems)-6))
+		}
+		t.Fatalf("LBVC-REPRODUCED (obligation %s): %s", os.Getenv("LBVC_OBLIGATION"), strings.Join(problems, "; "))
+	}
+}
